@@ -1,0 +1,35 @@
+//go:build verif
+
+package metrics
+
+// ResetTaskNumForVerif empties the per-state task sets behind the task number gauges (what a process restart does).
+func ResetTaskNumForVerif() {
+	TaskNumVec.numLock.Lock()
+	defer TaskNumVec.numLock.Unlock()
+	TaskNumVec.initialTaskMap = make(map[string]struct{})
+	TaskNumVec.runningTaskMap = make(map[string]struct{})
+	TaskNumVec.pauseTaskMap = make(map[string]struct{})
+}
+
+// TaskNumForVerif returns the sizes of the initial, running and paused task sets.
+func TaskNumForVerif() (int, int, int) {
+	i, r, p := TaskNumVec.getStateNum()
+	return int(i), int(r), int(p)
+}
+
+// TaskNumStateForVerif returns the states (as gauge label) in whose set the task is counted.
+func TaskNumStateForVerif(taskID string) []string {
+	TaskNumVec.numLock.RLock()
+	defer TaskNumVec.numLock.RUnlock()
+	var states []string
+	if _, ok := TaskNumVec.initialTaskMap[taskID]; ok {
+		states = append(states, "Initial")
+	}
+	if _, ok := TaskNumVec.runningTaskMap[taskID]; ok {
+		states = append(states, "Running")
+	}
+	if _, ok := TaskNumVec.pauseTaskMap[taskID]; ok {
+		states = append(states, "Paused")
+	}
+	return states
+}
